@@ -143,6 +143,97 @@ async def _body(prog, log, ctl):
             return None
 
 
+# literal try/except/finally bodies (oracle only; same log format as `_body`)
+
+
+def _set(log, i, v):
+    VARS[i].set(v)
+    log.append(("set", i, v))
+
+
+def _get(log, i):
+    log.append(("get", i, VARS[i].get()))
+
+
+async def lit_finally(prog, log, ctl):
+    _set(log, 0, 1)
+    try:
+        await tok(1)
+        _get(log, 0)
+        _set(log, 0, 2)
+        await tok(2)
+        _get(log, 0)
+    finally:
+        _get(log, 0)
+        _set(log, 1, 3)
+    return 5
+
+
+async def lit_async_cleanup(prog, log, ctl):
+    _set(log, 1, 1)
+    try:
+        await tok(1)
+        _get(log, 1)
+    finally:
+        _get(log, 1)
+        _set(log, 2, 2)
+        if not ctl.get("dead"):
+            try:
+                await tok(2)          # asynchronous clean-up (aclose()/athrow() allow it)
+            finally:
+                _get(log, 2)
+                _set(log, 0, 4)
+    return 6
+
+
+async def lit_except_retry(prog, log, ctl):
+    n = 0
+    while n < 3 and not ctl.get("dead"):
+        n += 1
+        try:
+            _set(log, 0, n)
+            await tok(n)
+            _get(log, 0)
+        except E1:
+            _get(log, 0)
+            _set(log, 1, 7)
+        except asyncio.CancelledError:
+            _get(log, 1)
+            _set(log, 2, 8)
+            raise
+    _get(log, 1)
+    return n
+
+
+class _Cm:
+    def __init__(self, log):
+        self.log = log
+
+    async def __aenter__(self):
+        _set(self.log, 2, 5)
+        return self
+
+    async def __aexit__(self, *exc):
+        _get(self.log, 2)
+        _set(self.log, 2, 6)
+        return False
+
+
+async def lit_async_with(prog, log, ctl):
+    async with _Cm(log):
+        _get(log, 2)
+        await tok(1)
+        _get(log, 2)
+        _set(log, 0, 9)
+        await tok(2)
+    _get(log, 2)
+    return 1
+
+
+LIT = {"finally": lit_finally, "async-cleanup": lit_async_cleanup, "except-retry": lit_except_retry,
+       "async-with": lit_async_with}
+
+
 # ---------------------------------------------------------------------------------------
 # real-code runner
 
@@ -177,7 +268,7 @@ class Real:
 
     def __init__(self, case):
         self.case = case
-        self.prog = parse_prog(case["prog"])
+        self.prog = parse_prog(case["prog"]) if "lit" not in case else []
         self.mode = case["mode"]
         self.log = []
         self.lines = ["body " + case["prog"]]
@@ -231,7 +322,7 @@ class Real:
     def start(self):
         c = self.case
         mark = len(self.log)
-        coro = _body(self.prog, self.log, self.ctl)
+        coro = (LIT[c["lit"]] if "lit" in c else _body)(self.prog, self.log, self.ctl)
         self.keep.append(coro)
         cur0 = ",".join(map(str, c["cur0"]))
         if self.mode in ("given", "cawait"):
@@ -780,6 +871,38 @@ def explore(ctx, cases, label=""):
     ctx.traces += len(cases)
 
 
+def literal_cases(rng, n):
+    opsets = [["awsend", "awsend", "awsend"], ["awsend", "awclose"], ["awsend", "awthrow E1", "awsend"],
+              ["awsend", "awthrow GeneratorExit"], ["sclose"], ["sthrow E1 1"], ["sthrow E1 3"], ["aclose", "awsend"],
+              ["athrow E1", "awsend", "awsend"], ["athrow CancelledError", "awsend"], ["awsend", "sclose"],
+              ["awsend", "aclose", "awsend"], ["awsend", "newit", "awsend"], ["awsend", "sthrow E2 2"]]
+    out = []
+    for lit in LIT:
+        for mode in ("given", "cawait", "none", "eager"):
+            for ops in opsets:
+                for ctx0 in ([0, 0, 0], [0, 7, 0]):
+                    if mode in ("none", "eager") and any(ctx0):
+                        continue
+                    ops2 = list(ops)
+                    for _ in range(n):
+                        ops2.insert(rng.randrange(len(ops2) + 1), f"cset {rng.randrange(NV)} {rng.randint(1, 9)}")
+                    out.append({"lit": lit, "prog": "literal:" + lit, "mode": mode, "ctx0": ctx0,
+                                "cur0": [rng.choice([0, 3]) for _ in range(NV)], "ops": ops2})
+    return out
+
+
+def explore_literal(ctx, cases):
+    """Oracle only (no script, hence no model run) on hand-written try/finally/async-with bodies."""
+    for case in cases:
+        real, tags, bad = judge(case)
+        ctx.case(case_text(case), sorted(tags | {"literal-try-finally-body"}))
+        if bad is not None:
+            ctx.violation(key_of(case, bad), "literal body: " + bad["what"],
+                          dict(case, failing_step=real.lines[bad["step"]]),
+                          expected=bad["expected"], observed=bad["observed"],
+                          theorem="Asynkit.C04.ctx_every_segment / ctx_none_shared / eager_private_copy")
+
+
 def corpus_cases():
     d = core.ROOT / "corpus" / PROP
     out = []
@@ -817,6 +940,7 @@ def run(ctx):
     rng = ctx.rng
     explore(ctx, corpus_cases(), label="corpus: ")
     explore(ctx, list(exhaustive_cases()), label="fixed family: ")
+    explore_literal(ctx, literal_cases(rng, 0) + literal_cases(rng, 2))
     n = 400000 if ctx.thorough() else 30000
     cases = [gen_case(rng) for _ in range(n)]
     for i in range(0, len(cases), 4000):
@@ -850,6 +974,9 @@ def run(ctx):
 def replay(ctx, data):
     warnings.filterwarnings("ignore", category=RuntimeWarning, message="coroutine .* was never awaited")
     case = {k: v for k, v in data["case"].items() if k not in ("failing_step", "driver_lines")}
+    if "lit" in case:
+        explore_literal(ctx, [case])
+        return
     if case.get("mode") == "eager-task":
         bad = eager_loop(ctx, case)
         ctx.case(case_text(case), ["replay"])
